@@ -169,7 +169,12 @@ class ConS(_Base):
         return date.fromordinal(ordinal)
 
     def cell(self, i):
-        return float(Fraction(i, 10**18))
+        """the exact real the solver chose (i / 1e18) as a decimal.Decimal: '%.11f' of it is correctly rounded, exactly what the
+        symbolic model assumes of a numeric cell (a float cell is an exact dyadic rational treated the same way by '%f');
+        a Python float could not carry the chosen value (16 significant digits) and would make replays disagree on ties"""
+        import decimal  # pylint: disable=import-outside-toplevel
+
+        return decimal.Context(prec=80).scaleb(decimal.Decimal(i), -18)
 
     def cell_exact(self, cell):
         return Fraction(cell)
